@@ -46,6 +46,14 @@ class NLink(Link):
 class SubVertex(Vertex):
     pass
 
+class FalsyVertex(Vertex):
+    """a legal Vertex subclass whose instances are falsy (an empty container vertex)"""
+    def __bool__(self):
+        return False
+
+    def __len__(self):
+        return 0
+
 class HarnessFault(Exception):
     """raised by a user call-back at its injected fault point"""
 '''
